@@ -48,6 +48,11 @@ class SourceFile:
     def _value_to_code(self, value):
         return self._token_to_code(value_to_token(value))
 
+    def _token_differ(self, node, new_tokens):
+        # the tokens of the node are normalized (no trailing comma ...),
+        # the generated tokens have to be normalized in the same way
+        return self._token_of_node(node) != list(normalize(new_tokens))
+
     def _token_of_node(self, node):
 
         return list(
